@@ -165,7 +165,7 @@ async def main():
             if ex == "exception":
                 marks["exit_start"] = time.monotonic()
                 raise RuntimeError("body failed")
-            if ex in ("deadline_during_exit", "exception_deadline_during_exit"):
+            if ex in ("deadline_during_exit", "exception_deadline_during_exit", "native_deadline_during_exit"):
                 # leave the body a little before the enclosing deadline: it fires during the grace periods
                 await asyncio.sleep(max(0.0, marks["deadline"] - time.monotonic() - case.get("lead", 0.3)))
                 marks["exit_start"] = time.monotonic()
@@ -195,6 +195,17 @@ async def main():
                 except RuntimeError as e:
                     obs["body_outcome"] = "runtime_error:" + str(e)[:60]
             obs["outer_deadline_fired"] = scope.cancel_called
+        elif ex == "native_deadline_during_exit":
+            # the same with asyncio's own deadline (asyncio.timeout / wait_for cancel the task natively)
+            marks["deadline"] = time.monotonic() + case.get("cancel_after", 1.0)
+            try:
+                async with asyncio.timeout(case.get("cancel_after", 1.0)):
+                    await body()
+                obs["body_outcome"] = "returned"
+                obs["outer_deadline_fired"] = False
+            except TimeoutError:
+                obs["body_outcome"] = "returned"
+                obs["outer_deadline_fired"] = True
         elif ex == "fail_after":
             try:
                 marks["deadline"] = time.monotonic() + case.get("cancel_after", 0.6)
